@@ -278,7 +278,7 @@ Proof.
   destruct (wf_users s (inv_wf s b I) _ u Hu) as [_ Hgu].
   assert (Hnn : nice_nick (s_me s)) by (apply valid_nick_nice; exact Hvme).
   set (me := s_me s) in *. set (hm := hostmask u).
-  unfold burst. cbn [fresh_chan sc_topic sc_bans sc_created sc_members sc_modes map app].
+  unfold burst, burst_rest. cbn [fresh_chan sc_topic sc_bans sc_created sc_members sc_modes map app].
   unfold msgs_who, msg_names, msg_endnames, modes_args, has_mode. cbn [fresh_chan sc_members sc_modes map fst flat_map assoc app set_chans_s s_users s_me].
   fold me. rewrite Hu. cbn [app].
   unfold feed_all. cbn [fold_left]. rewrite !for_cmd by reflexivity.
@@ -374,7 +374,7 @@ Lemma step_join_self_fresh s b n c : Inv s b -> feq n (s_me s) = true -> dead_or
   let '(s', ms) := step nick0 true uh s (AJoin n [c]) in Inv s' (fa b ms).
 Proof.
   intros I Hf Hd. cbn [step]. destruct (idict_get n (s_users s)) as [u|] eqn:En; [|exact I].
-  rewrite Hf. cbn [fold_left join_self]. unfold join_chan.
+  rewrite Hf. cbn [fold_left join_mine]. unfold join_chan.
   destruct (valid_chan c) eqn:Vc; cbn [negb]; [|exact I].
   assert (Hu : idict_get (s_me s) (s_users s) = Some u) by (rewrite <- (idict_get_feq n (s_me s) _ Hf); exact En).
   pose proof (wf_me_user s u n (inv_wf s b I) En Hf) as He.
@@ -384,14 +384,14 @@ Proof.
   assert (Hcomma : mem COMMA c = false).
   { apply andb_true_iff in Vc as [Vc _]. apply isChannel_nocomma. exact Vc. }
   assert (Hgoal : Inv (set_chans_s s (idict_set c (fresh_chan (s_me s)) (s_chans s)))
-                      (fa b ([] ++ burst (set_chans_s s (idict_set c (fresh_chan (s_me s)) (s_chans s))) u c
-                                         (fresh_chan (s_me s)) true uh))).
-  { cbn [app]. apply (Inv_fresh s b _ c u I Hu He Hmy). apply burst_fresh; assumption. }
+                      (fa b (Msg (hostmask u) str_JOIN [join [COMMA] ([] ++ [c])]
+                             :: bursts (set_chans_s s (idict_set c (fresh_chan (s_me s)) (s_chans s))) u true uh ([] ++ [c])))).
+  { cbn [app join]. unfold bursts. cbn [flat_map set_chans_s s_chans]. rewrite idict_get_set, feq_refl, app_nil_r.
+    apply (Inv_fresh s b _ c u I Hu He Hmy). apply burst_fresh; assumption. }
   unfold dead_or_absent in Hd.
   destruct (idict_get c (s_chans s)) as [ch|] eqn:Ec.
-  - destruct (sc_members ch) eqn:Em; [|discriminate].
-    cbn [set_chans_s s_chans]. rewrite idict_get_set, feq_refl. exact Hgoal.
-  - cbn [set_chans_s s_chans]. rewrite idict_get_set, feq_refl. exact Hgoal.
+  - destruct (sc_members ch) eqn:Em; [|discriminate]. exact Hgoal.
+  - exact Hgoal.
 Qed.
 
 End Steps.
